@@ -194,6 +194,19 @@ class C10Deal(Monitor):
                 p.board_cards += len(o.cards)
                 if sum(len(b) for b in s.board_cards) != self.prev['board'] + len(o.cards):
                     self.report('counts', 'board_not_appended', f'board grew by {sum(len(b) for b in s.board_cards) - self.prev["board"]} for {len(o.cards)} card(s)')
+                # a community card is on a board: every card dealt to `board_cards` is among the cards of one of
+                # the `board_count` boards (what the hands are made from)
+                try:
+                    seen = [c for b in range(s.board_count) for c in s.get_board_cards(b)]
+                except Exception:  # noqa: BLE001
+                    seen = None
+                if seen is not None:
+                    lost = [c for slot in s.board_cards for c in slot if c and c not in seen]
+                    if lost:
+                        self.report('counts', f'board_card_on_no_board:street{p.si}',
+                                    f'street {p.si}: {lost} dealt as community card(s) but on none of the {s.board_count} '
+                                    f'board(s): board_cards {s.board_cards}, boards '
+                                    f'{[list(s.get_board_cards(b)) for b in range(s.board_count)]}')
             else:
                 i = o.player_index
                 if i in p.disc:
